@@ -94,15 +94,8 @@ def run(ck, facts, tier):
             ck.ok(R, "solve_new_subgoal:re-iteration-rolls-back")
         else:
             ck.violation(R, "solve_new_subgoal:re-iteration-rolls-back", b.where(), "each new iteration must start from a search graph rolled back to dfn+1")
-    b = need_body(ck, facts, R, "<&dyn chalk_solve::RustIrDatabase<I> as chalk_recursive::fixed_point::SolverStuff>::reached_fixed_point")
-    if b:
-        e = peel(result_expr(b.thir))
-        ok = e.get("k") == "logic" and e["op"] == "Or" and has_call(e["r"], "Solution::is_ambig") and \
-            ((peel(e["l"]).get("k") == "bin" and peel(e["l"])["op"] == "Eq") or callee_matches(peel(e["l"]), "PartialEq::eq"))
-        if ok:
-            ck.ok(R, "reached_fixed_point:eq||is_ambig")
-        else:
-            ck.violation(R, "reached_fixed_point:eq||is_ambig", b.where(), "fixed point test must be `old == new || new.is_ambig()`")
+    from shared import fixedpoint
+    fixedpoint.table(ck, facts, "C09.FIXED-POINT-TABLE", which=("diverge",))
 
     R = "C09.FULFILL-PROGRESS"
     ck.rule(R, "K3/K1: the obligation loop of Fulfill::fulfill (`while progress`) re-runs only when a round changed something: every "
